@@ -236,6 +236,7 @@ struct Tester
         }
         if (!crash_mode)
         {
+            alarm(60);
             Outcome o = e.execute(p, cfg);
             return o.violated ? o.v : Violation();
         }
@@ -811,6 +812,7 @@ batch:
     };
 
     auto exec = [&](const Plan& p, uint64_t i) -> Outcome {
+        alarm(60); // the watchdog covers one execution, not a whole run with all its fault variants
         if (isolate)
         {
             ReplayFile r;
